@@ -178,6 +178,8 @@ int Simulate65816::run(int max_cycles, int step)
 
   printf("Running... Press Ctl-C to break.\n");
 
+  stop_running = false;
+
   while (stop_running == false)
   {
     int pc = reg_pc;
